@@ -15,7 +15,7 @@ CASES = {"quick": 3000, "thorough": 40000}
 MIN_CASES_PER_SHARD = 20
 CASE_TIMEOUT = 60
 RULE = ("one case = one integer-labelled random directed graph (3..12 nodes, one-way and two-way streets, anisotropic extent so that "
-        "axis mix-ups show, unit scale or ~1e7 offsets, bulk or single inserts, repeated adds of an existing label with the same or other coordinates, 25 % with the package logger at DEBUG) loaded in both backends, unbounded nodes_closeto/edges_closeto at the trace starts, 6 boxes (random, the bounding "
+        "axis mix-ups show, unit scale or ~1e7 offsets, bulk or single inserts, repeated adds of an existing label with the same or other coordinates, 25 % with the package logger at DEBUG, 30 % of the SQLite maps in a reused database file) loaded in both backends, unbounded nodes_closeto/edges_closeto at the trace starts, 6 boxes (random, the bounding "
         "box, boxes with a node exactly on the border) and 2 traces x edge-state matcher configurations without distance cut-off. "
         "Non-trivial = >= 3 nodes and x-extent / y-extent differ by more than 2x; distinct = hash of the graph")
 ANCHORS = [("leuvenmapmatching/map/sqlite.py", "SqliteMap.bb"),
@@ -30,7 +30,7 @@ ANCHORS = [("leuvenmapmatching/map/sqlite.py", "SqliteMap.bb"),
            ("leuvenmapmatching/map/inmem.py", "InMemMap.edges_nbrto"),
            ("leuvenmapmatching/map/inmem.py", "InMemMap.bb")]
 FLOORS = {"box_queries": 1000, "border_boxes": 150, "match_pairs": 300, "match_pairs_complete": 100,
-          "nbr_queries": 1500, "single_insert_graphs": 50, "big_magnitude_graphs": 50, "bb_compared": 200, "repeated_node_adds": 200, "grown_graphs": 200, "debug_level_graphs": 300, "closeto_compared": 2000}
+          "nbr_queries": 1500, "single_insert_graphs": 50, "big_magnitude_graphs": 50, "bb_compared": 200, "repeated_node_adds": 200, "grown_graphs": 200, "debug_level_graphs": 300, "reused_database_files": 400, "closeto_compared": 2000}
 ASSUMPTIONS = ["matching is compared on index and best probability (1e-9 relative), not on the path: neighbour order differs between "
                "backends and ties may be broken differently",
                "matcher configurations have no max_dist / max_dist_init (unbounded initial radius), as the property states"]
@@ -100,7 +100,7 @@ def gen_case(rng, i, tier):
             ge.append([a_, b_])
         grow = {"node": [newl, [p0[0] + rng.uniform(0.5, 2.0), p0[1] + rng.uniform(0.5, 2.0)]], "edges": ge}
     return {"map": m, "boxes": boxes, "traces": traces, "cfgs": cfgs, "bulk": rng.random() < 0.6, "big": big, "dups": dups, "grow": grow,
-            "debug": rng.random() < 0.25}
+            "debug": rng.random() < 0.25, "prior": build.prior_spec(rng) if rng.random() < 0.3 else None}
 
 
 def close(a, b):
@@ -137,7 +137,10 @@ def _check_case(ctx, case):
     m = case["map"]
     model = MapModel(m)
     im = build.make_inmem(m)
-    sm = build.make_sqlite(m, ctx.scratch, bulk=case["bulk"])
+    # 30 %: the database file is reused (an earlier map with the same labels at other places, parallel roads linked, lived in it)
+    sm = build.make_sqlite(m, ctx.scratch, bulk=case["bulk"], prior=case.get("prior"))
+    if case.get("prior"):
+        ctx.count("reused_database_files")
     ctx.evaluated()
     for l, loc in case.get("dups", []):
         ctx.count("repeated_node_adds")
